@@ -192,7 +192,14 @@ def run_script(m, script: List[Dict[str, Any]], tid: int) -> List[Dict[str, Any]
         clr = 0
         for bit in (ins.get("m", []) if ins["k"] == "CLRISR" else []):
             clr |= 1 << bit
-        out.append({"tid": tid, "ev": "Step", "kind": ins["k"], "len": len(bs), "vec": VEC, "clr": clr, "env": [e["ev"] for e in pending_env],
+        cfg = [-1, -1]
+        inj = [0, 0]
+        for e in pending_env:
+            if e["ev"] == "TimerCfg":
+                cfg = [int(e["pm"]), int(e["ps"])]
+            elif e["ev"] == "Timer":
+                inj[int(e["s"])] = 1
+        out.append({"tid": tid, "ev": "Step", "kind": ins["k"], "len": len(bs), "vec": VEC, "clr": clr, "env": [e["ev"] for e in pending_env], "cfg": cfg, "inj": inj,
                     "pre": r["pre"], "post": r["post"], "frame": r["frame"], "err": r["err"] or ""})
         pending_env = []
         # keep the handler entry a NOP for the next delivery
